@@ -26,6 +26,7 @@ import (
 	"example.com/scion-time/net/ntske"
 
 	"github.com/scionproto/scion/pkg/addr"
+	"github.com/scionproto/scion/pkg/slayers"
 
 	"verif/internal/ev"
 	"verif/internal/netlab"
@@ -168,6 +169,18 @@ func scionWrap(payload []byte, pathSeed uint64) ([]byte, wire.PathSpec) {
 		panic(fmt.Sprintf("harness: path %+v: %v", ps, err))
 	}
 	pkt := wire.Pkt{SrcIA: scionSrcIA, DstIA: dst, Src: netlab.Addr(1), Dst: scionSrvIP, Path: pth, SrcPort: scionSrcPrt, DstPort: uint16(scionPort), Payload: payload}
+	// extension headers that do not concern the time service: a valid request stays a valid request behind them
+	switch pathSeed >> 8 % 8 {
+	case 2: // what the end host's dispatcher adds when it forwards a packet
+		pkt.E2E = []*slayers.EndToEndOption{{OptType: 253, OptData: make([]byte, 16)}}
+	case 3: // padding only
+		pkt.E2E = []*slayers.EndToEndOption{{OptType: slayers.OptTypePadN, OptData: make([]byte, 2)}}
+	case 4:
+		pkt.HBH = true
+	case 5:
+		pkt.HBH = true
+		pkt.E2E = []*slayers.EndToEndOption{{OptType: slayers.OptionType(200 + pathSeed>>16%40), OptData: make([]byte, pathSeed>>24%12)}}
+	}
 	raw, err := pkt.Serialize(nil, nil)
 	if err != nil {
 		panic(fmt.Sprintf("harness: serialize: %v", err))
@@ -387,7 +400,7 @@ var recGrid = ev.New("c09/grid", "enumeration of every first header byte (256: a
 
 func TestExhaustiveGrid(t *testing.T) { gridBody(t, recGrid, lengths) }
 
-var recGridS = ev.New("c09/grid-scion", "the c09/grid enumeration sent to the SCION listener instead: every probe is the UDP payload of a SCION packet (empty path, one-hop path, or 1..2-segment SCION paths of varying length at their last hop) from a harness end host, sent from a 'previous hop' socket; lengths {0,1,47,48,49,52,75,76,77,100,1024,1300}. Same oracle on the unwrapped replies; in addition every reply must come from the listener's socket to the previous hop with ISD-AS, host and ports exchanged and a path whose type and bytes equal an independently computed reversal of the request's. Non-trivial / distinct as for c09/grid")
+var recGridS = ev.New("c09/grid-scion", "the c09/grid enumeration sent to the SCION listener instead: every probe is the UDP payload of a SCION packet (empty path, one-hop path, or 1..2-segment SCION paths of varying length at their last hop) from a harness end host, with or without extension headers that do not concern the time service (end-to-end option 253, padding, unknown options, hop-by-hop extension), sent from a 'previous hop' socket; lengths {0,1,47,48,49,52,75,76,77,100,1024,1300}. Same oracle on the unwrapped replies; in addition every reply must come from the listener's socket to the previous hop with ISD-AS, host and ports exchanged and a path whose type and bytes equal an independently computed reversal of the request's. Non-trivial / distinct as for c09/grid")
 
 var lengthsSCION = []int{0, 1, 47, 48, 49, 52, 75, 76, 77, 100, 1024, 1300}
 
